@@ -923,7 +923,7 @@ Qed.
 
 Definition cl_of (j : N) : N := 2 ^ j mod 2 ^ 32.
 
-Lemma cl_step j : wmul32 (cl_of j) 2 = cl_of (j + 1).
+Lemma cl_of_step j : wmul32 (cl_of j) 2 = cl_of (j + 1).
 Proof.
   unfold wmul32, w32, cl_of. rewrite N.mul_mod_idemp_l by (apply N.pow_nonzero; discriminate).
   rewrite N.add_1_r, N.pow_succ_r', (N.mul_comm 2). reflexivity.
@@ -969,7 +969,7 @@ Section Create.
     destruct ok.
     - inversion Hrun. subst d pool' r. destruct (H3 eq_refl) as [T [HT1 [HT2 HT3]]].
       exists T, depth. auto.
-    - rewrite cl_step in Hrun. apply (IH pool1 depth1 (j + 1) d pool' r); try assumption.
+    - rewrite cl_of_step in Hrun. apply (IH pool1 depth1 (j + 1) d pool' r); try assumption.
       destruct Hclean as [C1 C2]. split; [lia|]. intros q Hq. rewrite H2 by exact Hq. apply C2. exact Hq.
   Qed.
 
